@@ -64,6 +64,10 @@ def check_sizeof_def(ctx, fi, cls, rule="C05.R1"):
                 verdict[k] = (ok, e, "%s raises %s; only SizeofError may escape sizeof" % (fi.qual, c), "raise %s" % c)
             elif e.kind in STREAM_EVENTS + ("RAWIO",) and fi.name == "_sizeof":
                 verdict[k] = (False, e, "_sizeof touches a stream (%s)" % e.kind, "stream %s" % e.kind)
+            elif e.kind in ("CTXSET", "CTXUPDATE") and e.a.get("ctx") in (CTX, ("free", "context")):
+                # sizing is a question, not an operation: it must not plant entries (an `_index`, a default) in the caller's scope that make a
+                # later evaluation succeed where parse and build would see a different value
+                verdict[k] = (False, e, "%s writes the caller's context (%s) while sizing" % (fi.qual, N.show(e["key"]) if e.kind == "CTXSET" else "update"), "context write %s" % (N.show(e["key"]) if e.kind == "CTXSET" else "update"))
     for ok, e, what, key in verdict.values():
         ctx.ob(rule, fi, ok, what, node=e.node, key=key, detail=R1_RAISE_FROZEN.get((fi.qual, e["cls"])) if e.kind == "RAISE" else None)
     if not verdict:
